@@ -3,7 +3,8 @@
    The model is Tx/Transition.v (core/state_transition.go, state_processor.go, gaspool.go,
    the depth-0 shells of evm.Call / evm.Create); the EVM interpreter is the parameter
    `run`, constrained only by the premises written in each statement. *)
-From AQ Require Import Lib.Bytes Tx.Transition Tx.Supply Tx.TxProofs Generated.GenParamsTx.
+From AQ Require Import Lib.Bytes Tx.Transition Tx.Supply Tx.TxProofs Tx.SupplyProofs Generated.GenParamsTx.
+From AQ Require Evm.Interp Evm.InterpProofs Tx.Compose.
 Import ListNotations.
 Local Open Scope N_scope.
 
@@ -158,6 +159,45 @@ Theorem C06_eip161_no_empty_dirty_account_survives : forall cfg num coinbase run
 Proof. exact eip161_no_empty_dirty_account_survives. Qed.
 Print Assumptions C06_eip161_no_empty_dirty_account_survives.
 
+(* the EIP-158/161 deletion rule of StateDB.Finalise over the model: an account exists afterwards iff it existed and
+   either was not touched, or is neither flagged suicided nor (where empty accounts are deleted) empty *)
+Theorem C06_finalise_deletion_rule : forall de su sF es a,
+  In a (es_exist (finalise_e de su sF es)) <->
+  In a (es_exist es) /\
+  (~ In a (es_dirty es) \/ (~ In a su /\ (de = true -> is_empty_acc (get a sF) = false))).
+Proof. exact finalise_e_iff. Qed.
+Print Assumptions C06_finalise_deletion_rule.
+
+(* what a touch is: AddBalance of a non-zero amount, of zero to an empty account (zero-value call or transfer, zero
+   SELFDESTRUCT payout, zero fee), or to a missing account *)
+Theorem C06_add_balance_touches : forall a x s es,
+  (x <> 0%Z \/ is_empty_acc (get a s) = true \/ ~ In a (es_exist es)) -> In a (es_dirty (es_add_balance a x s es)).
+Proof. exact es_add_balance_touch. Qed.
+Print Assumptions C06_add_balance_touches.
+
+(* a coinbase that is empty after the transaction (zero fee) does not exist afterwards, also when it existed empty before *)
+Theorem C06_empty_coinbase_deleted : forall cfg num coinbase run erun idx s pool cum m es r,
+  apply_transaction cfg num coinbase run idx s pool cum m = TxOk r ->
+  (is_forked (c_byzantium cfg) num = true \/ is_forked (c_eip158 cfg) num = true) ->
+  is_empty_acc (get coinbase (t_state (x_tdb r))) = true ->
+  ~ In coinbase (es_exist (apply_transaction_e cfg num coinbase run erun idx s pool cum m es)).
+Proof. exact empty_coinbase_deleted. Qed.
+Print Assumptions C06_empty_coinbase_deleted.
+
+(* directed touch cases on the model (the same cases run against the implementation on every seed): after EIP-158
+   a zero-value transfer to an existing empty account deletes it; a FAILED zero-value call leaves an existing empty
+   precompile alone (the touch is reverted) — except the RIPEMD-160 precompile 0x03, whose reverted touch is kept
+   (journal.go) and which is therefore deleted *)
+Example C06_touch_cases :
+  let s := [(10, mkAcc 1000000%Z 0 0 0); (11, empty_acc); (3, empty_acc); (4, empty_acc)] in
+  let es := mkES [10; 11; 3; 4] [] in
+  let call to := mkMsg 10 (Some to) 0 0 30000 0 [] true in
+  let after run to := es_exist (apply_transaction_e all_forks 1 12 run no_erun 0 s 8000000 0 (call to) es) in
+  after (simple_run 0 0) 11 = [10; 3; 4] /\
+  after failing_run 4 = [10; 11; 3; 4] /\
+  after failing_run 3 = [10; 11; 4].
+Proof. vm_compute. repeat split; reflexivity. Qed.
+
 (* Clause 4 at full strength would also say that a failed execution changes the EXISTENCE of no account
    other than through the fee (forall a, a <> sender -> a <> coinbase -> In a (es_exist es') <-> In a (es_exist es)).
    That is false of the code in two ways; C06_failed_tx_leaves_only_fees above is the proved remainder (content). *)
@@ -188,6 +228,110 @@ Theorem C06_frontier_code_store_oog_refuted :
     bal (get (recipient m s) (x_state r)) = Z.of_N (m_value m) /\ m_value m = 5.
 Proof. exact frontier_code_store_oog_refuted. Qed.
 Print Assumptions C06_frontier_code_store_oog_refuted.
+
+(* 8. The same with the interpreter premise discharged: `run` is Compose.interp_runner, i.e. the callee is executed
+      by the C07 model of the EVM (AQ.Evm.Interp: instruction set, jump tables, gas, nested calls, reverts, precompiles)
+      on the concrete world behind the state.  The only premise left about the EVM is that its environment is well
+      formed (a compiled jump table and sane gas-table entries: InterpProofs.wf_env, proved for every env_of).
+      Scope: message calls — for a creation request the runner is a failing stub (see Tx/Compose.v), so these say
+      nothing new about contract-creation transactions; hence `_partial`. *)
+Theorem C06_evm_gas_bounded : forall fuel e code_of stor_of dg sg,
+  InterpProofs.wf_env e -> gas_bounded (Compose.interp_runner fuel e code_of stor_of dg sg).
+Proof. exact Compose.interp_runner_gas_bounded. Qed.
+Print Assumptions C06_evm_gas_bounded.
+
+Theorem C06_tx_phases_evm_partial : forall fuel e code_of stor_of dg sg,
+  InterpProofs.wf_env e ->
+  forall cfg num coinbase idx s pool cum m r,
+  m_gas m < two64 ->
+  apply_transaction cfg num coinbase (Compose.interp_runner fuel e code_of stor_of dg sg) idx s pool cum m = TxOk r ->
+  exists x,
+    (m_check_nonce m = true -> nonce (get (m_from m) s) = m_nonce m) /\
+    (Z.of_N (m_gas m * m_price m) <= bal (get (m_from m) s))%Z /\ m_gas m <= pool /\
+    exec_phase cfg num (Compose.interp_runner fuel e code_of stor_of dg sg) idx
+               (sub_balance (m_from m) (Z.of_N (m_gas m * m_price m)) s) m (m_gas m - t_intrinsic (x_tdb r)) = ExecDone x /\
+    t_used (x_tdb r) <= m_gas m /\
+    x_state r = finalise (er_suicided x)
+                  (add_balance coinbase (Z.of_N (t_used (x_tdb r) * m_price m))
+                     (add_balance (m_from m) (Z.of_N ((m_gas m - t_used (x_tdb r)) * m_price m)) (er_state x))) /\
+    x_pool r = pool - t_used (x_tdb r).
+Proof. exact Compose.tx_phases_evm. Qed.
+Print Assumptions C06_tx_phases_evm_partial.
+
+Theorem C06_gas_accounting_tx_evm_partial : forall fuel e code_of stor_of dg sg,
+  InterpProofs.wf_env e ->
+  forall cfg num coinbase idx s pool cum m r,
+  m_gas m < two64 ->
+  apply_transaction cfg num coinbase (Compose.interp_runner fuel e code_of stor_of dg sg) idx s pool cum m = TxOk r ->
+  let consumed := m_gas m - t_gas_left (x_tdb r) in
+  t_intrinsic (x_tdb r) = intrinsic_spec (m_data m) (is_creation m) (is_forked (c_homestead cfg) num) /\
+  t_intrinsic (x_tdb r) <= consumed /\ consumed <= m_gas m /\
+  t_refund (x_tdb r) <= consumed / 2 /\ t_used (x_tdb r) = consumed - t_refund (x_tdb r) /\
+  t_used (x_tdb r) <= m_gas m /\
+  r_gas_used (x_receipt r) = t_used (x_tdb r) /\
+  r_cumulative (x_receipt r) = add64 cum (t_used (x_tdb r)) /\ x_cumulative r = add64 cum (t_used (x_tdb r)) /\
+  x_pool r + t_used (x_tdb r) = pool.
+Proof. exact Compose.gas_accounting_tx_evm. Qed.
+Print Assumptions C06_gas_accounting_tx_evm_partial.
+
+Theorem C06_gas_accounting_block_evm_partial : forall fuel e code_of stor_of dg sg,
+  InterpProofs.wf_env e ->
+  forall cfg dealloc s h txs uncles s' rs used,
+  Forall (fun m => m_gas m < two64) txs -> h_gas_limit h < two64 ->
+  process cfg dealloc (Compose.interp_runner fuel e code_of stor_of dg sg) s h txs uncles = BlockOk s' rs used ->
+  used = sum_gas_used rs /\ cumulative_ok 0 rs /\ used <= h_gas_limit h.
+Proof. exact Compose.gas_accounting_block_evm. Qed.
+Print Assumptions C06_gas_accounting_block_evm_partial.
+
+(* 9. One statement over every block (any number of transactions, list induction): gas used = sum over the receipts,
+      every receipt's cumulative gas is the running sum and never decreases, the total fits the block gas limit, one
+      receipt per transaction; before each transaction the pool is the limit minus the gas used so far and the
+      transaction's limit fits into it; the reward is applied once, after all transactions, and is the schedule. *)
+Theorem C06_block_accounting : forall cfg dealloc run s h txs uncles s' rs used,
+  gas_bounded run -> Forall (fun m => m_gas m < two64) txs -> h_gas_limit h < two64 ->
+  process cfg dealloc run s h txs uncles = BlockOk s' rs used ->
+  used = sum_gas_used rs /\ cumulative_ok 0 rs /\ cumulative_mono 0 rs /\ used <= h_gas_limit h /\ length rs = length txs /\
+  (forall t1 m t2, txs = t1 ++ m :: t2 ->
+     exists i si pi ci, after_txs cfg (h_number h) (h_coinbase h) run 0 (block_start cfg dealloc h s) (h_gas_limit h) 0 t1 = Some (i, si, pi, ci) /\
+                        pi + ci = h_gas_limit h /\ m_gas m <= pi) /\
+  (exists s3, process_txs cfg (h_number h) (h_coinbase h) run 0 (block_start cfg dealloc h s) (h_gas_limit h) 0 txs [] = BlockOk s3 rs used /\
+              s' = accumulate_rewards h uncles s3 /\
+              supply s' = (supply s3 + issuance (h_number h) uncles)%Z).
+Proof. exact block_accounting. Qed.
+Print Assumptions C06_block_accounting.
+
+(* ... and with the modelled EVM inside (message-call transactions; see 8) *)
+Theorem C06_block_accounting_evm_partial : forall fuel e code_of stor_of dg sg,
+  InterpProofs.wf_env e ->
+  forall cfg dealloc s h txs uncles s' rs used,
+  Forall (fun m => m_gas m < two64) txs -> h_gas_limit h < two64 ->
+  process cfg dealloc (Compose.interp_runner fuel e code_of stor_of dg sg) s h txs uncles = BlockOk s' rs used ->
+  used = sum_gas_used rs /\ cumulative_ok 0 rs /\ cumulative_mono 0 rs /\ used <= h_gas_limit h /\ length rs = length txs /\
+  (forall t1 m t2, txs = t1 ++ m :: t2 ->
+     exists i si pi ci, after_txs cfg (h_number h) (h_coinbase h) (Compose.interp_runner fuel e code_of stor_of dg sg) 0
+                                  (block_start cfg dealloc h s) (h_gas_limit h) 0 t1 = Some (i, si, pi, ci) /\
+                        pi + ci = h_gas_limit h /\ m_gas m <= pi) /\
+  (exists s3, process_txs cfg (h_number h) (h_coinbase h) (Compose.interp_runner fuel e code_of stor_of dg sg) 0
+                          (block_start cfg dealloc h s) (h_gas_limit h) 0 txs [] = BlockOk s3 rs used /\
+              s' = accumulate_rewards h uncles s3 /\
+              supply s' = (supply s3 + issuance (h_number h) uncles)%Z).
+Proof. exact Compose.block_accounting_evm. Qed.
+Print Assumptions C06_block_accounting_evm_partial.
+
+(* non-vacuity of 8: a mainnet block-40000 call to a contract that stores 1 in slot 0, executed by the modelled EVM
+   (no oracle): 21000 + 20006 gas, the storage digest of the callee becomes the encoding of {0 -> 1} *)
+Example C06_evm_example :
+  let s := [(0xaa, mkAcc 4294967296%Z 0 0 0); (0xbb, mkAcc 0%Z 0 (Compose.dg_c [0x60; 1; 0x60; 0; 0x55; 0]%Z) 0)] in
+  let m := mkMsg 0xaa (Some 0xbb) 0 1 50000 5 [] true in
+  InterpProofs.wf_env (Compose.interp_env 40000 0xc0 0xaa 1 8000000 1000 1) /\
+  exists cfg r, builtin_cfg 0 = Some cfg /\
+    Compose.apply_transaction_i 1000 cfg 40000 0xc0 8000000 1000 1 s 8000000 0 m = TxOk r /\
+    t_used (x_tdb r) = 41006 /\ t_failed (x_tdb r) = false /\
+    stor (get 0xbb (x_state r)) = Compose.sg_c [(0, 1)]%Z /\ bal (get 0xbb (x_state r)) = 5%Z.
+Proof.
+  cbv zeta. split; [apply Compose.interp_env_wf|].
+  eexists. eexists. split; [vm_compute; reflexivity|]. split; [vm_compute; reflexivity|]. vm_compute. repeat split; reflexivity.
+Qed.
 
 (* non-vacuity: a concrete transaction (value 5, limit 30000, price 2, 5000 gas burnt by the callee)
    meets every premise of the balance equation, and the equation gives the expected numbers *)
